@@ -108,6 +108,9 @@ func cmdCheck(args []string) int {
 		return 0
 	}
 
+	if id == "C18" {
+		loadGennames = true
+	}
 	if id == "C14" || id == "C01" {
 		gp, notes, gerr := generateAPIHarness()
 		if gerr != nil {
